@@ -241,7 +241,9 @@ func (snm *shardNotificationsManager) getNotifications() error {
 	}
 
 	var startOffsetExclusive *int64
-	if snm.lastOffsetReceived >= 0 {
+	if snm.lastOffsetReceived >= 0 || snm.initialized {
+		// Once positioned, resume from there: on a shard with nothing committed yet
+		// the position handed out by the leader is -1
 		startOffsetExclusive = &snm.lastOffsetReceived
 	}
 
